@@ -38,6 +38,27 @@ def record(ctx, i, clients, ops, keys, tag='h'):
     return ev, args
 
 
+GATED_SITES = ['sm.flush.snapshot', 'sm.rotate.begin', 'sm.rotate.marked', 'sm.rotate.oldsafe', 'wal.new', 'wal.setnext', 'sm.rotate.created',
+               'sm.rotate.swapped', 'wal.close.pre', 'wal.close.synced', 'sm.rotate.closed', 'sm.flush.table.pre', 'sst.block.prewrite',
+               'sst.finish.presync', 'sst.finish.synced', 'sst.finish.renamed', 'sm.flush.table.renamed', 'sm.flush.table.published']
+
+
+def gated(ctx, site, imm, tag='g'):
+    d = ctx.sub(f'lin-{tag}-{site}-{int(imm)}')
+    import shutil
+    shutil.rmtree(os.path.join(d, 'db'), ignore_errors=True)
+    out = os.path.join(d, 'trace.ndjson')
+    args = [ctx.kvh(), 'lin-gated', '-dir', os.path.join(d, 'db'), '-out', out, '-site', site] + (['-imm'] if imm else [])
+    try:
+        p = subprocess.run(args, capture_output=True, text=True, timeout=120)
+    except subprocess.TimeoutExpired:
+        return [{'e': 'reset'}, {'e': 'hang', 'msg': 'harness timed out'}], args
+    ev = read_ndjson(out) if os.path.exists(out) else [{'e': 'reset'}]
+    if p.returncode not in (0, 5) and not any(e.get('e') in ('hang', 'error') for e in ev):
+        ev.append({'e': 'error', 'msg': f'rc={p.returncode} {p.stderr[-300:]}'})
+    return ev, args
+
+
 def validate_parallel(ctx, runs, tag, groups=6):
     chunks = [list(range(g, len(runs), groups)) for g in range(groups)]
     rejected = []
@@ -87,6 +108,28 @@ def check_C06(ctx):
             continue
         path = save_replay(ctx, 'lin', {'args': recs[i][1][1:], 'trace': runs[i]})
         ctx.violations.append({'what': what, 'replay': path})
+    # deterministic interleavings: the flush path parked at each of its steps while clients write and read
+    jobs = [(s_, imm) for s_ in GATED_SITES for imm in (False, True)]
+    with cf.ThreadPoolExecutor(max_workers=10) as ex:
+        grecs = list(ex.map(lambda j: gated(ctx, j[0], j[1]), jobs))
+    reached = [(j, r) for j, r in zip(jobs, grecs) if not any(e.get('e') == 'notreached' for e in r[0])]
+    if len(reached) < len(GATED_SITES):
+        raise Infra(f'only {len(reached)} gated scenarios reached their hook site (hooks renamed or removed?)')
+    ctx.notes['gated_scenarios'] = len(reached)
+    ctx.traces += len(reached)
+    ctx.evaluations += len(reached)
+    for j, r in reached:
+        ctx.nontrivial.add(('gated',) + j)
+    for i in validate_parallel(ctx, [r[0] for j, r in reached], 'gated', groups=4)[:3]:
+        j, r = reached[i]
+        r2 = gated(ctx, j[0], j[1], tag='repro')
+        if not validate_batch(ctx, 'KevoLin', 'KevoLin.cfg', [r2[0]], f'gated-repro{i}', done_inv='NotDone'):
+            ctx.unreproduced.append({'what': f'gated at {j}'})
+            continue
+        bad = [e for e in r[0] if e.get('e') in ('error', 'hang')]
+        what = f'flush path parked at {j[0]} ({"immutable" if j[1] else "active"} table): ' + \
+            (bad[0].get('msg', 'error') if bad else 'the recorded history has no linearisation')
+        ctx.violations.append({'what': what, 'replay': save_replay(ctx, 'lin', {'args': r[1][1:], 'trace': r[0]})})
     # binding self-test: a history with one altered read result must be rejected
     t = next((r for r in runs if any(e.get('e') == 'ret' and e['res'] not in ('ok', 'err', 'NONE') for e in r)), None)
     if t is None:
